@@ -121,7 +121,7 @@ CHECKS["C12"] = {
     "level": "model_checking",
     "design_ref": "DESIGN.md section 4 C12, Appendix J",
     "technique": "implementation-shaped TLA+ model of server.go (design); TLC-generated environment scripts replayed on a real server.Server; event log validated by TLC against the trace specification ServerTrace",
-    "text": "Server.tla (start gate, slot semaphore, full/drain, shutdown) is model-checked for 3-4 calls x 1-2 slots. ServerEnv enumerates scripts (3 concurrent invocations, ack / return ok|err / cancel, pipelined calls on acknowledged answers, Shutdown anywhere); 1000 (quick) sampled scripts plus every script (<= 250 quick) in which a caller waiting for a slot or at the gate is cancelled while later callers wait behind it, run against the real server with MaxConcurrentCalls 1 and 2; a call that is never delivered shows as an execution that does not wind down; TLC checks each event log: one started-and-unacknowledged call at a time, cap, start order consistent with Send returns, exactly one result per call equal to the implementation's, pipelined calls delivered in order only after a successful return, cancellation visible after Shutdown, user shutdown once after running calls returned, nothing starts afterwards.",
+    "text": "Server.tla (start gate, slot semaphore, full/drain, shutdown) is model-checked for 3-4 calls x 1-2 slots; AnswerQueue.tla (server/answer.go: queued, late and direct calls) for a chain of three entries and two late callers, its variants 'basis 0 ready when the drain starts' and 'return right after delivery' must violate OrderOnResult / OrderOnEntry (controls). ServerEnv enumerates scripts (3 concurrent invocations, ack / return ok|err / cancel, pipelined calls on acknowledged answers, Shutdown anywhere); 1000 (quick) sampled scripts plus every script (<= 250 quick) in which a caller waiting for a slot or at the gate is cancelled while later callers wait behind it, run against the real server with MaxConcurrentCalls 1 and 2; a call that is never delivered shows as an execution that does not wind down; answer queues are overfilled (calls blocked together are unordered among themselves, behind the queued ones) and calls are pipelined on queued pipelined calls' answers, followed by direct calls on their results; TLC checks each event log: one started-and-unacknowledged call at a time, cap, start order consistent with Send returns, exactly one result per call equal to the implementation's, pipelined calls delivered in order only after a successful return, cancellation visible after Shutdown, user shutdown once after running calls returned, nothing starts afterwards.",
     "note": "No hook needed (the implementation, callers, result capability and Shutdowner are harness code). Interleavings depend on timing jitter (seeded sleeps), not on a scheduler.",
 }
 
